@@ -140,6 +140,43 @@ def run(ctx):
         key = "registry:" + ("duplicate-label-name" if dup else "invalid-name-exposed") + ":" + tag
         ctx.violation(key, "gather() of a registry created with %s exposes %s" % (j["calls"][0], names), {"calls": j["calls"], "registry": True})
     nok += len(recs) - len(rej)
+    # ---- code -> spec over names outside the enumerated alphabet: every ASCII character in first and later position, long
+    # names, multi-byte characters at every position; the constructor's verdict is judged by Desc.tla (NameVerdict, TLC)
+    import random
+    rnd = random.Random(ctx.seed + 9)
+    names = set()
+    for c in range(0, 128):
+        ch = chr(c)
+        names.update([ch, "a" + ch, ch + "a", "a" + ch + "9", "_" + ch])
+    for u in ["é", "ÿ", "٣", "你", "\U0001F600", "\u00b2", "\uff11", "\u0660", "\u0430", "\u212a", "\u017f"]:
+        names.update([u, "a" + u, u + "a", "ab" + u + "c", "a_" + u])
+    names.update(["a" * 300, "a" * 299 + "é", "_" * 70 + "9" * 70, ":" + "b" * 200, "a" * 128 + "-", "é" + "a" * 200])
+    names.discard("")
+    names = sorted(names)
+    vjobs = []
+    for nm in names:
+        vjobs.append({"id": len(vjobs), "calls": [{"op": "counter", "as": "x", "opts": {"name": nm, "help": "h"}}], "k": "metric", "s": nm})
+        vjobs.append({"id": len(vjobs), "calls": [{"op": "gauge_vec", "as": "x", "opts": {"name": "m", "help": "h"}, "labels": [nm]}], "k": "label", "s": nm})
+        vjobs.append({"id": len(vjobs), "calls": [{"op": "histogram", "as": "x", "opts": {"name": "m", "help": "h", "const": [[nm, "v"]]}}], "k": "label" if nm != "le" else "skip", "s": nm})
+        vjobs.append({"id": len(vjobs), "calls": [{"op": "registry", "as": "x", "custom": True, "prefix": nm}], "k": "metric", "s": nm})
+    vres = run_api(ctx, exe, [{"id": j["id"], "calls": j["calls"]} for j in vjobs], "verdict", nproc=8)
+    vrecs, vix = [], []
+    for j in vjobs:
+        rr = vres[j["id"]][0]
+        if "panic" in rr:
+            ctx.violation("constructor-panics", "%s panicked on name %r: %s" % (j["calls"][0]["op"], j["s"], rr["panic"][:160]), {"calls": j["calls"], "expect_ok": False})
+            continue
+        if j["k"] == "skip":
+            continue
+        vrecs.append({"kind": j["k"], "s": to_ranks(j["s"]), "accepted": "ok" in rr})
+        vix.append(j)
+    vrej = oracle(ctx, "NameVerdict", "AllAgree", vrecs, "verdict")
+    for i in sorted(vrej):
+        j = vix[i]
+        ctx.violation(("accepts-invalid:" if vrecs[i]["accepted"] else "rejects-valid:") + "ascii-sweep", "%s %s the %s name %r; Desc.tla disagrees" % (
+            j["calls"][0]["op"], "accepts" if vrecs[i]["accepted"] else "rejects", j["k"], j["s"]), {"calls": j["calls"], "expect_ok": not vrecs[i]["accepted"]})
+    nok += len(vrecs) - len(vrej)
+    ctx.cov["names_judged_by_NameVerdict"] = len(vrecs)
     ctx.cov.update({
         "traces_validated_against_impl": nok, "name_cases": len(cases), "constructor_calls": len(jobs), "registry_scenarios": len(rjobs), "gathers_judged_by_NamesOracle": len(recs),
         "samples": [{"pos": c["pos"], "s": to_str(c["s"]), "ok": c["ok"]} for c in cases[5:8]] + [{"const": [to_str(n) for n in c["cset"]], "var": [to_str(v) for v in c["vseq"]], "ok": c["ok"], "okhist": c["okhist"]} for c in cases[-3:]],
